@@ -430,7 +430,7 @@ def run(tier, seed):
         chk.count("value")
         if r[0] != "ok":
             chk.fail(f"value|{n}", f"constant {n!r} has no reference value (a new row must be given one)",
-                     {"python": snippet(f"raise AssertionError('constant {n} has no reference value in UnytModel/Ref/C15Constants.lean')\n")})
+                     {"python": snippet(f"assert {n!r} not in TABLE, 'constant {n} has no reference value in UnytModel/Ref/C15Constants.lean'\n")})
             continue
         ref, tol, dim = F(r[1]), F(r[2]), r[3]
         ok = abs(mag(q) - ref) <= tol * abs(ref) and gen.dim_vec(q.units.dimensions) == dim
@@ -452,6 +452,10 @@ def run(tier, seed):
     want_known = {f"unit-vs-constant|{k}" for k in excl_unit} | {f"value|{k}" for k in excl_value}
     if known != want_known:
         chk.disagree("exclusions", f"exclusion lists {sorted(want_known)} and known findings {sorted(known)} are not in one-to-one correspondence")
+    # restore the global state this run touched: the custom unit systems it registered
+    from unyt.unit_systems import unit_system_registry as _usr
+    for k in [k for k in _usr if k.startswith("c15_")]:
+        del _usr[k]
     chk.extra["namespaces"] = len(live)
     chk.extra["unit_constant_homonyms"] = homonyms
     chk.extra["names_that_are_units"] = unit_hits
